@@ -31,6 +31,13 @@ FINDING_WIDTH = "more-than-63-matchers"    # not a recorded finding (the generat
 FINDING_ORACLE = "oracle-disagreement"      # not a recorded finding: a hit is reported as a violation
 
 
+def stage_deviation(stages):
+    """the recorded deviation a pipeline ORDER outside the theorems' fragments falls in.  None: no deviation is recorded
+    (drop-then-line-filter, drop-then-simple-filter and filter-sees-later-relabel were repaired in /repo by 1c90aa9), so a
+    wrong answer for any stage order is a violation."""
+    return None
+
+
 def ml_str(s):
     b = s.encode("utf8", "surrogateescape") if isinstance(s, str) else s
     out = []
@@ -43,8 +50,8 @@ def ml_str(s):
 
 
 def case_ml(c):
-    return ("{ sc_id = z (%d); sc_q = %s; sc_ctx = %s; sc_sql = %s; sc_tree = %s; sc_re = %s; sc_pf = %s; sc_dbs = %s }"
-            % (c["id"], c["ast_ml"], c["ctx_ml"], ml_str(c["sql"][0]), c["tree_ml"], c["re_ml"], c["pf_ml"], c["dbs_ml"]))
+    return ("{ sc_id = z (%d); sc_q = %s; sc_ctx = %s; sc_sql = %s; sc_tree = %s; sc_re = %s; sc_pf = %s; sc_jg = %s; sc_dbs = %s }"
+            % (c["id"], c["ast_ml"], c["ctx_ml"], ml_str(c["sql"][0]), c["tree_ml"], c["re_ml"], c["pf_ml"], c.get("jg_ml") or "[]", c["dbs_ml"]))
 
 
 def unhex(h):
@@ -105,7 +112,7 @@ def eval_sem(ck, name, cases):
         p = ln.split(" ")
         if p[0] == "C":
             res[int(p[1])] = {"fragment": p[2] == "1", "width": p[3] == "1", "ctx_ok": p[4] == "1", "text_ok": p[5] == "1",
-                              "model_sel": p[6] == "1", "wrefs": p[7] == "1", "dbs": []}
+                              "model_sel": p[6] == "1", "wrefs": p[7] == "1", "fragment2": p[8] == "1", "dbs": []}
         elif p[0] == "D":
             res[int(p[1])]["dbs"].append({"db_ok": p[3] == "1", "absent": p[4] == "1", "oracle": p[5] == "1",
                                           "impl": int(p[6]), "rev": int(p[7]), "model": int(p[8]), "same": p[9] == "1",
@@ -214,8 +221,10 @@ def run_semantic(ck, text_cases):
     theorem_evals = 0
     for cid, v in res.items():
         c = byid[cid]
-        if not v["fragment"] or not v["ctx_ok"]:
+        if not v["ctx_ok"]:
             continue
+        in_thm = v["fragment"] or v["fragment2"]
+        dev = None if in_thm else stage_deviation(c.get("stages"))
         if not v["text_ok"]:
             not_text_ok.append(c)
             continue
@@ -225,15 +234,16 @@ def run_semantic(ck, text_cases):
             if not d["db_ok"]:
                 machinery.append((c, k, "generated database violates db_ok"))
                 continue
-            guards = v["width"] and d["absent"] and d["oracle"]
+            guards = in_thm and v["width"] and d["absent"] and d["oracle"]
+            outside_ok = (not in_thm) and v["width"] and d["absent"] and d["oracle"]
             if 0 < d["nwant"] < d["nsamples"] or (d["nwant"] > 1 and c["ctx"]["limit"] not in (0,) and c["ctx"]["limit"] < d["nwant"]):
                 nontrivial.add(json.dumps([c["query"], c["ctx"], db], sort_keys=True))
             if guards:
                 theorem_evals += 1
                 if d["model"] != 0:
-                    machinery.append((c, k, "the model's SELECT is not the reference answer inside the guards (contradicts logql_log_partial): verdict %d" % d["model"]))
+                    machinery.append((c, k, "the model's SELECT is not the reference answer inside the guards (contradicts logql_log_partial[_parsers]): verdict %d" % d["model"]))
             bad = d["impl"] == 1 or d["rev"] == 1
-            if not bad and d["impl"] == 2 and guards:
+            if not bad and d["impl"] == 2 and (guards or outside_ok):
                 undecided.append((c, k))
             if not bad:
                 continue
@@ -246,14 +256,14 @@ def run_semantic(ck, text_cases):
             if guards or not d["same"]:
                 violations.append(rep)
             else:
-                fid = FINDING_WIDTH if not v["width"] else FINDING_ABSENT if not d["absent"] else FINDING_ORACLE
+                fid = FINDING_WIDTH if not v["width"] else FINDING_ABSENT if not d["absent"] else FINDING_ORACLE if not d["oracle"] else (dev or "unrecorded-deviation")
                 findings_hit.setdefault(fid, []).append(rep)
     unbound = [byid[i]["query"] for i, v in res.items() if not v["wrefs"]]
     ck.obligation("every WithRef of the model's SELECT carries the query that the WITH list binds to its alias (%d plans)" % len(res),
                   not unbound, "; ".join(unbound[:3]))
     ck.obligation("failing-input search: render(prep(sqlparse(SQL))) = SQL on every fragment case (%d cases)" % len(res),
                   not not_text_ok, "; ".join(c["query"] for c in not_text_ok[:3]))
-    ck.obligation("failing-input search machinery: generated databases satisfy db_ok; the extracted model agrees with logql_log_partial on %d guarded evaluations" % theorem_evals,
+    ck.obligation("failing-input search machinery: generated databases satisfy db_ok; the extracted model agrees with logql_log_partial / logql_log_partial_parsers on %d guarded evaluations" % theorem_evals,
                   not machinery, "; ".join("%s db#%d: %s" % (c["query"], k, why) for c, k, why in machinery[:3]))
     ck.obligation("the implementation's SQL evaluates inside the modelled ClickHouse subset on every guarded database",
                   not undecided, "; ".join("%s db#%d" % (c["query"], k) for c, k in undecided[:3]))
